@@ -291,3 +291,135 @@ Proof.
   rewrite step_move. destruct (move_of md D F c ch) as [| |mv]; try discriminate.
   intros [= <-]. rewrite out_apply_move. by eexists.
 Qed.
+
+(* ------------------------------------------------------------------ effects are well-formed *)
+Definition fresh_in (self : pid) (lo hi : nat) (k : cid) : Prop :=
+  exists n, k = self ++ [n] /\ (lo <= n < hi)%nat.
+
+Lemma fresh_in_mono self lo hi lo' hi' k :
+  fresh_in self lo hi k -> (lo' <= lo)%nat -> (hi <= hi')%nat -> fresh_in self lo' hi' k.
+Proof. intros (n & -> & H) ??. exists n. split; [done|lia]. Qed.
+
+Lemma droppable_fwds_spec self p cls ss cs p2 :
+  droppable_fwds self p cls = (ss, cs, p2) ->
+  (pr_next p <= pr_next p2)%nat /\ forall k, k ∈ cs -> fresh_in self (pr_next p) (pr_next p2) k.
+Proof.
+  revert p ss cs p2. induction cls as [|cl r IH]; intros p ss cs p2; cbn [droppable_fwds].
+  - intros [= <- <- <-]. split; [lia|]. intros k Hk. by apply elem_of_nil in Hk.
+  - unfold droppable_fwd, fresh_chan. cbn [chan].
+    destruct (droppable_fwds self _ r) as [[ss' cs'] p2'] eqn:E. intros [= <- <- <-].
+    apply IH in E as [Hle Hin]. cbn [pr_next] in *. split; [lia|].
+    intros k Hk. apply elem_of_cons in Hk as [->|Hk].
+    + exists (pr_next p). split; [done|lia].
+    + eapply fresh_in_mono; [by apply Hin|lia|lia].
+Qed.
+
+Lemma fresh_row_spec self p fn n row p2 :
+  fresh_row self p fn n = (row, p2) ->
+  (pr_next p <= pr_next p2)%nat /\ forall k, k ∈ cids_of row -> fresh_in self (pr_next p) (pr_next p2) k.
+Proof.
+  revert p row p2. induction n as [|n IH]; intros p row p2; cbn [fresh_row].
+  - intros [= <- <-]. split; [lia|]. intros k Hk. by apply elem_of_nil in Hk.
+  - unfold fresh_chan. destruct (fresh_row self _ fn n) as [cs p2'] eqn:E. intros [= <- <-].
+    apply IH in E as [Hle Hin]. cbn [pr_next] in *. split; [lia|].
+    intros k Hk. cbn in Hk. apply elem_of_cons in Hk as [->|Hk].
+    + exists (pr_next p). split; [done|lia].
+    + eapply fresh_in_mono; [by apply Hin|lia|lia].
+Qed.
+
+Lemma fresh_matrix_spec self p fns n rows p2 :
+  fresh_matrix self p fns n = (rows, p2) ->
+  (pr_next p <= pr_next p2)%nat /\ forall k, k ∈ flat_map cids_of rows -> fresh_in self (pr_next p) (pr_next p2) k.
+Proof.
+  revert p rows p2. induction fns as [|fn r IH]; intros p rows p2; cbn [fresh_matrix].
+  - intros [= <- <-]. split; [lia|]. intros k Hk. by apply elem_of_nil in Hk.
+  - destruct (fresh_row self p fn n) as [row p1] eqn:E1.
+    destruct (fresh_matrix self p1 r n) as [rows' p2'] eqn:E2. intros [= <- <-].
+    apply fresh_row_spec in E1 as [Hle1 Hin1]. apply IH in E2 as [Hle2 Hin2]. split; [lia|].
+    intros k Hk. cbn [flat_map] in Hk. apply elem_of_app in Hk as [Hk|Hk].
+    + eapply fresh_in_mono; [by apply Hin1|lia|lia].
+    + eapply fresh_in_mono; [by apply Hin2|lia|lia].
+Qed.
+
+Record eff_wf (self : pid) (p : proc) (e : effect) : Prop := {
+  ewf_newch : forall k, k ∈ e_newch e -> exists n, k = self ++ [n] /\ (pr_next p <= n)%nat /\
+                         forall p', e_after e = Continue p' -> (n < pr_next p')%nat;
+  ewf_next : forall p', e_after e = Continue p' -> (pr_next p <= pr_next p')%nat;
+  ewf_close : e_close e ⊆ cids_of (pr_provs p)
+}.
+
+Lemma eff_wf_no_eff self p a :
+  (forall p', a = Continue p' -> (pr_next p <= pr_next p')%nat) -> eff_wf self p (no_eff a).
+Proof. intros H. split; cbn; [set_solver|done|set_solver]. Qed.
+
+Lemma eff_wf_finish self p ss cs N :
+  (forall k, k ∈ cs -> fresh_in self (pr_next p) N k) -> eff_wf self p (Eff Finish ss cs [] []).
+Proof.
+  intros H. split; cbn; [|done|set_solver].
+  intros k Hk. destruct (H k Hk) as (n & -> & Hn). exists n. split; [done|]. split; [lia|done].
+Qed.
+
+Lemma dup_effect_wf self p e : dup_effect self p = EOk e -> eff_wf self p e.
+Proof.
+  unfold dup_effect. destruct (length (pr_provs p) =? 1)%nat; [discriminate|].
+  destruct (fresh_matrix _ _ _ _) as [rows p2] eqn:E. intros [= <-].
+  apply fresh_matrix_spec in E as [_ Hin]. by eapply eff_wf_finish.
+Qed.
+
+Lemma internal_effect_wf md F self p e : internal_effect md F self p = EOk e -> eff_wf self p e.
+Proof.
+  unfold internal_effect. destruct (pr_body0 p) eqn:Eb; try discriminate.
+  - (* FNew *) unfold fresh_chan. intros [= <-]. split; cbn; [|intros ? [= <-]; cbn; lia|set_solver].
+    intros k Hk. apply elem_of_list_singleton in Hk as ->. exists (pr_next p).
+    split; [done|]. split; [lia|]. intros ? [= <-]. cbn. lia.
+  - (* FSplit *) unfold fresh_chan. cbn [pr_next]. intros [= <-]. split; cbn; [|intros ? [= <-]; cbn; lia|set_solver].
+    intros k Hk. apply elem_of_cons in Hk as [->|Hk]; [|apply elem_of_list_singleton in Hk as ->].
+    + exists (pr_next p). split; [done|]. split; [lia|]. intros ? [= <-]. cbn. lia.
+    + exists (S (pr_next p)). split; [done|]. split; [lia|]. intros ? [= <-]. cbn. lia.
+  - (* FCall *) destruct (call_body F f args); [|discriminate]. intros [= <-].
+    apply eff_wf_no_eff. intros ? [= <-]. cbn. lia.
+  - (* FDrop *) destruct (is_np md).
+    + intros [= <-]. apply eff_wf_no_eff. intros ? [= <-]. cbn. lia.
+    + unfold droppable_fwd, fresh_chan. cbn [chan]. intros [= <-].
+      split; cbn; [|intros ? [= <-]; cbn; lia|set_solver].
+      intros k Hk. apply elem_of_list_singleton in Hk as ->. exists (pr_next p).
+      split; [done|]. split; [lia|]. intros ? [= <-]. cbn. lia.
+  - (* FPrint *) intros [= <-]. split; cbn; [set_solver|intros ? [= <-]; cbn; lia|set_solver].
+Qed.
+
+Definition is_fwd_body (p : proc) : bool := match pr_body0 p with FFwd _ _ _ => true | _ => false end.
+(* the channels a process closes when it receives message m: its providers, on a forward request *)
+Definition closes_of (p : proc) (m : msg) : list cid :=
+  if rule_eqb (m_rule m) RFWD && negb (is_fwd_body p) then cids_of (pr_provs p) else [].
+
+Ltac on_msg_tac :=
+  repeat match goal with
+         | H : EOk _ = EOk _ |- _ => injection H as <-
+         | H : EErr _ = EOk _ |- _ => discriminate H
+         | H : context [let '(_, _) := ?x in _] |- _ => destruct x as [[??]?] eqn:?
+         | H : context [match ?x with _ => _ end] |- _ => destruct x eqn:?
+         | H : context [if ?x then _ else _] |- _ => destruct x eqn:?
+         end.
+
+Lemma on_message_wf self p m e :
+  on_message self p m = EOk e -> eff_wf self p e /\ e_close e = closes_of p m.
+Proof.
+  unfold on_message, closes_of, is_fwd_body.
+  destruct (rule_eqb (m_rule m) RFWD && negb _) eqn:E1.
+  { intros [= <-]. split; [|done]. split; cbn; [set_solver|intros ? [= <-]; cbn; lia|set_solver]. }
+  destruct (rule_eqb (m_rule m) RGC && negb _) eqn:E2.
+  { destruct (droppable_fwds _ _ _) as [[ss cs] p2] eqn:Ed. intros [= <-]. split; [|done].
+    apply droppable_fwds_spec in Ed as [_ Hin]. by eapply eff_wf_finish. }
+  intros H.
+  assert (Hgoal : (exists a, e = no_eff a /\ forall p', a = Continue p' -> (pr_next p <= pr_next p')%nat) \/
+                  (exists ss cs N, e = Eff Finish ss cs [] [] /\ forall k, k ∈ cs -> fresh_in self (pr_next p) N k)).
+  { revert H. destruct (pr_body0 p) eqn:Eb; intros H; try discriminate H.
+    all: try (left; on_msg_tac; eexists; (split; [reflexivity|]); intros ? [= <-]; unfold set_body, set_provs_body; cbn; lia).
+    destruct droppable.
+    - right. destruct (droppable_fwds _ _ _) as [[ss cs] p2] eqn:Ed. injection H as <-.
+      apply droppable_fwds_spec in Ed as [_ Hin]. eauto.
+    - left; on_msg_tac; eexists; (split; [reflexivity|]); intros ? [= <-]; unfold set_body, set_provs_body; cbn; lia. }
+  destruct Hgoal as [(a & -> & Ha)|(ss & cs & N & -> & Hin)].
+  - split; [by apply eff_wf_no_eff|done].
+  - split; [by eapply eff_wf_finish|done].
+Qed.
